@@ -1,4 +1,5 @@
 import PacketVerif.Drv.Checksum
+import PacketVerif.Drv.Views
 open PV
 
 /-- dispatch one protocol line to the module that knows the op -/
@@ -7,7 +8,8 @@ def dispatch (line : String) : String :=
   | [] => "bad-op"
   | cmd :: args =>
     let hs : List (String → List String → Option String) := [
-      Drv.Checksum.handle
+      Drv.Checksum.handle,
+      Drv.Views.handle
     ]
     match hs.findSome? (fun h => h cmd args) with
     | some r => r
